@@ -141,6 +141,18 @@ type streamFmt struct {
 	kWrite    *Kind
 }
 
+// collectRe collects the items of it twice: the iterators the library returns can be
+// ranged over again (File opens the file anew each time); the second pass must give
+// what the first gave.
+func collectRe[T any](it iter.Seq2[T, error], limit int, enc func(T) (Val, bool)) Val {
+	first := collect(it, limit, enc)
+	second := collect(it, limit, enc)
+	if first.String() != second.String() {
+		return L(L(I(3), S("ranging over the same iterator value a second time gives different items")))
+	}
+	return first
+}
+
 func plainItems(v Val) []Val { return v.List() }
 
 var oneErr = L(L(I(1)))
@@ -154,7 +166,7 @@ func samOracleOf(data []byte) Val {
 var streamFmts = []*streamFmt{
 	{name: "fasta",
 		reader:  func(r io.Reader, limit int) Val { return collect(fasta.Reader(r), limit, encFasta) },
-		file:    func(p string, limit int) Val { return collect(fasta.File(p), limit, encFasta) },
+		file:    func(p string, limit int) Val { return collectRe(fasta.File(p), limit, encFasta) },
 		openErr: oneErr, items: plainItems,
 		write: func(rec Val, w io.Writer) error {
 			return (&fasta.Fasta{Name: rec.At(0).Bytes(), Sequence: rec.At(1).Bytes()}).Write(w)
@@ -177,7 +189,7 @@ var streamFmts = []*streamFmt{
 		alphabet: ">>\n\n\r ACGT"},
 	{name: "fastq",
 		reader:  func(r io.Reader, limit int) Val { return collect(fastq.Reader(r), limit, encFastq) },
-		file:    func(p string, limit int) Val { return collect(fastq.File(p), limit, encFastq) },
+		file:    func(p string, limit int) Val { return collectRe(fastq.File(p), limit, encFastq) },
 		openErr: oneErr, items: plainItems,
 		write:   func(rec Val, w io.Writer) error { return fqRecsOf(L(rec))[0].Write(w) },
 		marshal: func(rec Val) ([]byte, error) { return fqRecsOf(L(rec))[0].MarshalText() },
@@ -201,7 +213,7 @@ var streamFmts = []*streamFmt{
 	{name: "sam", oracle: true,
 		reader: func(r io.Reader, limit int) Val { return collect(sam.ReaderHeader(r), limit, encSamHdr) },
 		file: func(p string, limit int) Val {
-			return L(collect(sam.File(p), limit, encSam), collect(sam.FileHeader(p), limit, encSamHdr))
+			return L(collectRe(sam.File(p), limit, encSam), collectRe(sam.FileHeader(p), limit, encSamHdr))
 		},
 		fileRef: func(data []byte, limit int) Val {
 			return L(collect(sam.Reader(bytes.NewReader(data)), limit, encSam),
@@ -261,7 +273,7 @@ var streamFmts = []*streamFmt{
 		alphabet: "\t\t\t\n\n\r@:iZAf019-"},
 	{name: "bed",
 		reader:  func(r io.Reader, limit int) Val { return collect(bed.Reader(r), limit, encBed) },
-		file:    func(p string, limit int) Val { return collect(bed.File(p), limit, encBed) },
+		file:    func(p string, limit int) Val { return collectRe(bed.File(p), limit, encBed) },
 		openErr: oneErr, items: plainItems,
 		write:   func(rec Val, w io.Writer) error { return valBed(rec).Write(w) },
 		marshal: func(rec Val) ([]byte, error) { return valBed(rec).MarshalText() },
@@ -284,7 +296,7 @@ var streamFmts = []*streamFmt{
 		alphabet: "\t\t\t\n\n\r#,019-+.c"},
 	{name: "newick", oracle: true,
 		reader:  func(r io.Reader, limit int) Val { return wrapOk(collect(newick.Reader(r), limit, encNewick)) },
-		file:    func(p string, limit int) Val { return wrapOk(collect(newick.File(p), limit, encNewick)) },
+		file:    func(p string, limit int) Val { return wrapOk(collectRe(newick.File(p), limit, encNewick)) },
 		openErr: vOk(oneErr),
 		items: func(v Val) []Val {
 			return v.At(1).List()
@@ -496,6 +508,12 @@ func init() {
 				if !bytes.Equal(emitted, m[:min(k, len(m))]) {
 					return "the bytes that reached the writer are not the leading bytes of MarshalText"
 				}
+				// a legal io.Writer may accept every byte of a call and still return an error
+				if k < len(m) {
+					if err := f.write(in.At(0), &fullButFailingWriter{failAt: k}); err == nil {
+						return fmt.Sprintf("the writer reported an error (having accepted the bytes) at byte %d of %d but Write returned nil", k, len(m))
+					}
+				}
 				return ""
 			}})
 	}
@@ -537,8 +555,29 @@ func registerFault(f *streamFmt) {
 			if other := runFault(data, k, !forever); other.String() != out.String() {
 				return "fail-once and fail-forever streams give different items"
 			}
+			// the io.Reader contract allows the last bytes to arrive together with the
+			// error, and reads of zero bytes: the items must be the same
+			if tg := f.reader(&faultReader{data: slices.Clone(data[:k]), forever: forever, together: true}, len(data)+8); tg.String() != out.String() {
+				return "a stream that returns its last bytes together with the error gives different items"
+			}
+			if tg := f.reader(&faultReader{data: slices.Clone(data[:k]), forever: forever, together: true, chunk: 7}, len(data)+8); tg.String() != out.String() {
+				return "a stream read in 7-byte pieces whose last piece comes with the error gives different items"
+			}
+			// whatever the error is: also one that wraps io.EOF, io.ErrUnexpectedEOF itself
+			for _, e := range []error{fmt.Errorf("frame 7: reading header: %w", io.EOF), io.ErrUnexpectedEOF, io.ErrClosedPipe} {
+				if tg := f.reader(&faultReader{data: slices.Clone(data[:k]), forever: forever, err: e}, len(data)+8); tg.String() != out.String() {
+					return fmt.Sprintf("a stream failing with the error %q gives different items than one failing with another error", e)
+				}
+			}
 			if f.extra != nil {
 				if msg := f.extra(&faultReader{data: slices.Clone(data[:k]), forever: forever}, len(data)+8, out); msg != "" {
+					return msg
+				}
+			}
+			// the same fault seen through File: a gzip file cut short is a stream that fails
+			// (sampled: one offset in eight)
+			if f.file != nil && !f.readOnly && len(data) > 0 && (k+len(data))%8 == 3 {
+				if msg := truncatedGzMsg(f, data, k); msg != "" {
 					return msg
 				}
 			}
@@ -1152,4 +1191,49 @@ func sortedKeys(m map[int]bool) []int {
 	}
 	sort.Ints(ks)
 	return ks
+}
+
+// truncatedGzMsg writes data gzip-compressed to a temp file named *.gz, cuts the file
+// after a fraction k/len(data) of its bytes and reads it with File: the iteration must
+// end with an error (compress/gzip reports the truncation as a read error).
+func truncatedGzMsg(f *streamFmt, data []byte, k int) string {
+	var zb bytes.Buffer
+	zw := gzip.NewWriter(&zb)
+	zw.Write(data)
+	zw.Close()
+	z := zb.Bytes()
+	cut := len(z) * k / (len(data) + 1)
+	if cut >= len(z) {
+		cut = len(z) - 1
+	}
+	dir, err := os.MkdirTemp("", "verif-c07-")
+	if err != nil {
+		panic(badCase("cannot create a temp dir"))
+	}
+	defer os.RemoveAll(dir)
+	path := filepath.Join(dir, "cut."+f.name+".gz")
+	if err := os.WriteFile(path, z[:cut], 0o644); err != nil {
+		panic(badCase("cannot write the temp file"))
+	}
+	out := f.file(path, len(data)+8)
+	lists := []Val{out}
+	if f.name == "sam" {
+		lists = out.List() // [File FileHeader]
+	}
+	for _, l := range lists {
+		if isCap(l) {
+			return "File on a truncated .gz file: the iteration does not end"
+		}
+		items := f.items(l)
+		if f.name == "sam" {
+			items = l.List()
+		}
+		if len(items) == 0 {
+			return "File on a truncated .gz file ended like a clean end of data (no items, no error)"
+		}
+		if last := items[len(items)-1]; len(last.L) != 1 || last.L[0].I != 1 {
+			return "File on a truncated .gz file ended like a clean end of data (the last item is not an error)"
+		}
+	}
+	return ""
 }
